@@ -908,7 +908,8 @@ def state_eq_v2(ans_state, dump, new_actions, tol=FTOL):
 # NaN compares false with everything (float) or raises on ordering (Decimal): a guard written as `if amount < 0` / `if amount > held`
 # lets it through, and every balance it touches becomes NaN.  This stream feeds every entry point that takes an amount with
 # numbers that are not ordinary finite numbers, in both wallet modes, and looks at the state with predicates that cannot pass on NaN.
-SPECIAL_FLOATS = [float("nan"), float("inf"), float("-inf"), -0.0, 1e90, -1e90]      # beyond ~1e100 `diffUsd ** exponent` raises OverflowError (not modelled)
+SPECIAL_FLOATS = [float("nan"), float("inf"), float("-inf"), -0.0, 1e90, -1e90, 1e200, 1e308, 1.7976931348623157e308, -1e308]
+# 1e200: `diffUsd ** exponent` raises OverflowError (modelled: Err.overflow); 1e308: amount x price is already inf, pricing answers inf/nan (035b95e)
 SPECIAL_DECIMALS = [Decimal("NaN"), Decimal("-NaN"), Decimal("sNaN"), Decimal("Infinity"), Decimal("-Infinity"), Decimal("1E+400"), Decimal("-1E+400"),
                     Decimal("-0"), Decimal("1E-400")]
 
@@ -928,7 +929,9 @@ def special_class(x):
         return "f:nan"
     if math.isinf(x):
         return "f:+inf" if x > 0 else "f:-inf"
-    return "f:-0" if x == 0 else ("f:huge" if x > 0 else "f:-huge")
+    if x == 0:
+        return "f:-0"
+    return ("f:" if x > 0 else "f:-") + ("huge" if abs(x) < 1e100 else ("1e200" if abs(x) < 1e300 else "max"))
 
 
 def ser_num(x):
@@ -959,12 +962,15 @@ def special_cases(rng, n):
                 if not pcls.startswith("zero"):
                     break
             wallet = [(t, b) for t, b in (("weth", Decimal(str(round(_logu(rng, -2, 4), 6)))), ("usdc", Decimal(str(round(_logu(rng, 0, 7), 4))))) if rng.random() < 0.9]
-            w = V2World(pool, gen_v2_cfg(rng), wallet, amount=rng.choice([0.0, round(_logu(rng, -2, 6), 4)]), series=rng.random() < 0.2 and all(v is not None for v in pool.values()),
-                        allow_negative=an)
+            x = rng.choice(SPECIAL_FLOATS) if rng.random() < 0.6 else rng.choice(SPECIAL_DECIMALS)
+            y = rng.choice(SPECIAL_FLOATS)                      # second special, used by "deposit.both"
+            huge = any(isinstance(z, float) and math.isfinite(z) and abs(z) > 1e100 for z in (x, y))
+            # pandas rows hold numpy doubles, whose `**` and `/` answer inf/nan where Python floats raise: huge amounts go to dataclass rows only
+            w = V2World(pool, gen_v2_cfg(rng), wallet, amount=rng.choice([0.0, round(_logu(rng, -2, 6), 4)]),
+                        series=(not huge) and rng.random() < 0.2 and all(v is not None for v in pool.values()), allow_negative=an)
             for _ in range(rng.choice([0, 0, 1, 2])):
                 o, _ = gen_v2_op(rng, w)
                 w.apply(o)
-            x = rng.choice(SPECIAL_FLOATS) if rng.random() < 0.6 else rng.choice(SPECIAL_DECIMALS)
             c = rng.random()
             other = rng.choice([0.0, 0.0, round(_logu(rng, -3, 1), 6)])
             if c < 0.3:
@@ -972,7 +978,7 @@ def special_cases(rng, n):
             elif c < 0.6:
                 op, k = {"kind": "deposit", "long": other, "short": x}, "deposit.short"
             elif c < 0.7:
-                op, k = {"kind": "deposit", "long": x, "short": rng.choice(SPECIAL_FLOATS)}, "deposit.both"
+                op, k = {"kind": "deposit", "long": x, "short": y}, "deposit.both"
             else:
                 op, k = {"kind": "withdraw", "amount": x}, "withdraw"
             yield 2, w, op, f"{k}:{special_class(x)}"
